@@ -336,6 +336,10 @@ class Perm(_enum.IntFlag):
   W = 2
 
 
+PRIM_INT = 7          # plain primitives that somebody tries (and fails) to
+PRIM_STR = 'seven'    # register as serialization constants
+
+
 class MyInt(int):
   pass
 
